@@ -1,2 +1,8 @@
 import TinsModel.Props.C12
-#print axioms Tins.Props.C12.placeholder
+#print axioms Tins.Props.C12.model_refines_spec
+#print axioms Tins.Props.C12.guards_agree
+#print axioms Tins.Props.C12.forest_inv
+#print axioms Tins.Props.C12.exactly_one_owner
+#print axioms Tins.Props.C12.exactly_one_owner_reachable
+#print axioms Tins.Props.C12.destroy_all_frees_each_once
+#print axioms Tins.Props.C12.clone_deep_equal
